@@ -6,7 +6,7 @@
    relational join `join_spec`; `kind_pre` is "sorted ascending, strictly on the side(s) declared unique";
    `chunks_ok` says that no window of cs keys on a trimmed side is a single run continuing beyond it. *)
 From Coq Require Import ZArith List.
-From EV Require Import Res Arr Join JoinSpec JoinBase JoinIface JoinDriver JoinMain JoinAll.
+From EV Require Import Res Arr Join JoinSpec JoinBase JoinIface JoinDriver JoinMain JoinAll JoinEmbed.
 Import ListNotations.
 Open Scope Z_scope.
 
@@ -61,3 +61,12 @@ Theorem c03_nonvacuous :
   streamed (mkvar KGen true) [1;1;2;3;3] [1;3;3;4] (-1) 3 = Ok ([0;1;2;3;3;4;4], [0;0;-1;1;2;1;2]).
 Proof. exact all_hyps_nonvacuous. Qed.
 Print Assumptions c03_nonvacuous.
+
+(* the generators see keys only through comparisons: run on the keys seen through any strictly monotone map
+   (integers at the ends of a dtype, binary64 values, fixed strings with blanks: the encodings the harness uses
+   to turn an order type into concrete key columns) they return what they return on the order type itself *)
+Theorem c03_key_embedding : forall (f:Z -> Z) k is_left L R inv cs,
+  kind_pre k L R -> (forall x y, In x (L ++ R) -> In y (L ++ R) -> x < y -> f x < f y) -> 1 <= cs -> chunks_ok k cs L R ->
+  streamed (mkvar k is_left) (map f L) (map f R) inv cs = streamed (mkvar k is_left) L R inv cs.
+Proof. exact JoinEmbed.streamed_key_embedding. Qed.
+Print Assumptions c03_key_embedding.
